@@ -118,6 +118,10 @@ var histSteps = []struct{ Name, Src string }{
 	{"proto-accessor", `Object.defineProperty(Object.getPrototypeOf(o), P, {get: undefined, set: function(v){}, configurable: true})`},
 }
 
+// quickFirstSteps: the first steps of the two-step histories in the quick tier.
+var quickFirstSteps = map[string]bool{"def-value": true, "def-data-full": true, "def-fixed": true, "def-fixed-u16": true, "def-get": true, "def-getundef-set": true,
+	"def-accessor-full": true, "assign": true, "delete": true, "freeze": true, "seal": true, "prevent": true}
+
 // script observers (each is its own Run)
 var histObservers = []struct{ Name, Src string }{
 	{"gopd-fields", `(function(){ var d = Object.getOwnPropertyDescriptor(o, P); return d === undefined ? "u" : [typeof d.value, typeof d.get, typeof d.set, d.writable, d.enumerable, d.configurable].join() })()`},
@@ -188,11 +192,13 @@ func runHistory(r *rc) {
 					for i, st := range idx {
 						names[i] = histSteps[st].Name
 					}
+					// quick tier: two-step histories start with one of 12 first steps
+					skip := !r.Thorough() && l == 2 && !quickFirstSteps[histSteps[idx[0]].Name]
 					key := s.Name + "|" + prop + "|" + strings.Join(names, ".")
 					if l == 0 {
 						key = s.Name + "|" + prop + "|-"
 					}
-					if r.MinePrefix(key) {
+					if !skip && r.MinePrefix(key) {
 						if r.Expired() {
 							r.Cap("time budget reached")
 							return
